@@ -695,10 +695,12 @@ class LowerToIRVisitor(Visitor.DefaultVisitor):
     def v_AssignmentExpression(self, expr, ctx):
         value = self.v_Visit(expr.GetRight(), ctx)
         ctx.BeginAssignment(value)
-        destination = self.v_Visit(expr.GetLeft(), ctx)
+        self.v_Visit(expr.GetLeft(), ctx)
         ctx.EndAssignment()
 
-        return destination
+        # The value of an assignment is the assigned value (the store itself
+        # does not produce one)
+        return value
 
     def v_ArrayExpression(self, expr, ctx):
         array = self.v_Visit(expr.GetParent(), ctx)
